@@ -348,8 +348,9 @@ class Run:
             "wall_s": round(time.time() - T0 + float(os.environ.get("C36_BUILD_S", "0")), 2),
             "violations": len(seen),
         }
-        os.makedirs("/verif/evidence", exist_ok=True)
-        json.dump(ev, open("/verif/evidence/C36.json", "w"), indent=1)
+        evdir = os.environ.get("VERIF_EVIDENCE_DIR", "/verif/evidence")
+        os.makedirs(evdir, exist_ok=True)
+        json.dump(ev, open(os.path.join(evdir, "C36.json"), "w"), indent=1)
         if seen:
             return 1
         if self.inconc:
